@@ -3,6 +3,7 @@
 package main
 
 import (
+	"hash/fnv"
 	"bytes"
 	"encoding/json"
 	"errors"
@@ -106,11 +107,21 @@ func login(e *agentEnv, mux *http.ServeMux, frontend, user, pw string) (bool, st
 		ok, _, _ := callback(user, pw, "svc", "realm", "/sock", e.iface)
 		return ok, ""
 	case "basic-auth":
-		req := httptest.NewRequest("GET", "/basic-auth", nil)
+		// whatever the method (an auth_request sub-request carries the method of the original request), a pure function of
+		// the credentials so that a case replays
+		ms := []string{"GET", "GET", "HEAD", "POST", "OPTIONS", "PUT", "DELETE", "PROPFIND"}
+		h := fnv.New32a()
+		h.Write([]byte(user + "\x00" + pw))
+		method := ms[int(h.Sum32()%uint32(len(ms)))]
+		req := httptest.NewRequest(method, "/basic-auth", nil)
 		req.SetBasicAuth(user, pw)
+		if h.Sum32()&0x100 != 0 {
+			req.Header.Set("Origin", "https://admin.example.org")
+		}
 		rec := httptest.NewRecorder()
 		mux.ServeHTTP(rec, req)
-		return rec.Code == 200, ""
+		vlib.Class("basic-auth-method:" + method)
+		return rec.Code >= 200 && rec.Code < 300, fmt.Sprintf("(method %s, status %d)", method, rec.Code)
 	case "api-authenticate":
 		rec := post("/api/authenticate", webAuthenticateRequest{Username: user, Password: pw})
 		return rec.Code == 200, rec.Body.String()
